@@ -219,7 +219,7 @@ def run_c09(prop, cfg, tier, seed):
     return generic(prop, cfg, tier, seed,
                    [("pvopt", 4000, 250000, ["-lift", "optmerge-inverted,optshare,optthrow"], {"optlabels": "D5", "optbytes": "O1"}),
                     # the command line: every rule named by (possibly repeated) -alternate-entrypoints survives -optimize-grammar
-                    ("pvtool", 1400, 20000, ["-lift", "optthrow"], {}, {"entrypoint-lost"})])
+                    ("pvtool", 3000, 30000, ["-lift", "optthrow"], {}, {"entrypoint-lost"})])
 
 
 def regenerate_artifacts():
